@@ -71,6 +71,30 @@ def compile_error_cases(rng, count):
     return cases
 
 
+# programs whose first compile error names a token that is NOT where the statement starts (one token per line where it matters)
+LOCATED_ERRORS = [
+    "#[\nconstructor\n]\nclass\nA\n{\n}\n", "#[\nderive\n]\nclass A {}\n", "#[constructor(a, b)]\n\nclass A {}\n", "#[derive(A,\nB)]\nclass C {}\n",
+    "#[\nconstructor(new),\nderive\n]\nclass A {}\n", "#[\nderive(B),\nconstructor\n]\nclass A {}\n",
+    "#[\nstatic\n]\nfn f() {}\n", "#[\nwhatever(x)\n]\nclass A {}\n", "class A {\n#[\nstatic(x)\n]\nfn m() {}\n}\n",
+    "class A {\n#[constructor,\nstatic]\nfn m(self) {}\n}\n", "class A {\n#[static,\nconstructor]\nfn m(self) {}\n}\n",
+    "class A {\n#[constructor(x)]\nfn m(self) {}\n}\n", "class A {\n#[\nother\n]\nfn m(self) {}\n}\n", "#[derive(A)]\nvar x;\n", "#[derive(A)]\n\n1;\n",
+    "#[a]\n#[b]\nclass C {}\n", "#[a,\na]\nclass C {}\n", "#[a(x),\nb,\na(\ny)]\nclass C {}\n", "#[a(\n1)]\nclass C {}\n", "#[a(x\ny)]\n", "#[\n]\n", "#\nclass\n", "#[a]\n",
+    "#[a\nb]\nclass C {}\n", "class A {\n#[static]\n}\n", "#[derive(\nA)]\nclass\nA {}\n", "fn f() {\n #[derive(\nA)]\n class\n A {}\n}\n",
+    "fn f() {\n}\nreturn\n1;\n", "fn f() {\n}\nreturn\n;\n", "class A {\nfn m(self) {\n}\n#[static]\nfn s() {\nreturn\nself\n;\n}\n}\n",
+    "class A {\n#[static]\nfn s() {\nreturn || \nself;\n}\n}\n", "while true {\n}\nbreak\n;\n", "while true {\nfn f() {\ncontinue\n;\n}\n}\n",
+    "for x in [1] {\nvar f = || {\nbreak\n;\n};\n}\n", "{\nvar a = 1;\nvar\na\n= 2;\n}\n", "fn f(a,\nb,\na) {}\n", "var f = |a,\nb,\na| 1;\n",
+    "{ var a =\n a; }\n", "{ var a = 1; { var a =\n a\n; } }\n", "fn f() { var g = || {\nvar a =\na;\n}; }\n", "import\n\"main\"\n;\n",
+    "{\nimport \"x/util\";\nimport\n\"y/util\"\n;\n}\n", "{\nimport \"x/util\" as u;\nimport \"y/other\" as\nu\n;\n}\n", "import \"lib\" as\n1;\n",
+    "class A {\nfn m(self) {\nreturn super\n.x;\n}\n}\n", "fn f() {\nreturn super\n.x;\n}\n", "var x = Self\n;\n", "var y =\nself\n;\n",
+    "#[constructor(new)]\nclass A {\n#[constructor]\nfn init(self) {\nreturn\n1;\n}\n}\n", "#[derive(B)]\nclass A {\nfn m(self) {\nreturn super\n;\n}\n}\n",
+    "#[derive(B)]\nclass A {\nfn m(self) {\nreturn super.\n1;\n}\n}\n", "class A {\nfn\nm(\n) {}\n}\n", "class A {\nfn m(self\nx) {}\n}\n", "fn f(\nself) {}\n",
+    "class A {\n#[static]\nfn s(\nself) {}\n}\n", "for\n1 in x {}\n", "for x\nof y {}\n", "for x in x\n{}\n", "{ var x = 1; for x in\nx {} }\n", "try {\n}\nprint(1);\n",
+    "try {\n} catch\n{\n}\n", "try {\n} catch e\nprint(e);\n", "try {\n} finally\nprint(1);\n", "if x {\n} else\nprint(1);\n", "a.b\n.1;\n", "x[1\n;\n", "f(1,\n2;\n",
+    "var m = {1:\n2,\n3};\n", "(1,\n2;\n", "(1\n;\n", "1 +\n= 2;\n", "a + b\n= 2;\n", "a.b = c\n= ;\n", "x +=\ny += 1;\n", "x += |a| {\nb\n+= 1; };\n",
+    "var s = \"a${\n}b\";\n", "var s = \"a${1\n2}b\";\n", "print(\"${1}\"\n\"x\");\n", "var x = 1\n@ 2;\n", "var x =\n$;\n",
+]
+
+
 def main(tier, seed):
     rep = Report(PROP, tier, seed, "model_checking")
     rng = random.Random(seed)
@@ -105,6 +129,17 @@ def main(tier, seed):
         if not first.startswith(want) or c["frag"] not in first:
             rep.violation("compile error for %r should be reported at line %d (%s), got %r" % (c["bad"], c["line"], c["frag"], first),
                           {"source": c["main"], "messages": run["messages"]})
+    # ... for EVERY first error the parser can record: Parser.tla predicts the offending token, its line and the message for the
+    # catalogue above, for programs whose offending token (an attribute name, a duplicate declaration, a misplaced return / break /
+    # self / super, a class deriving itself ...) sits on a line of its own, and for mutations of the repository's multi-line scripts
+    import parsertwin
+    from checks import c03
+    items, _modules = vlib.corpus()
+    twin_sources = [c["main"] for c in cases] + LOCATED_ERRORS + c03.mutations(random.Random(seed + 3), items, tier)[: (1500 if tier == "quick" else 15000)]
+    ntwin, stwin = parsertwin.check(rep, bins[0][1], twin_sources, "compile errors (offending token, line, message)", tag="c17twin")
+    rep.coverage["states"] = rep.coverage.get("states", 0) + stwin
+    rep.coverage["transitions"] = rep.coverage.get("transitions", 0) + stwin
+    rep.coverage["traces_validated_against_impl"] += ntwin
     # the command-line program on programs that do not compile: exit status 65 and exactly the compiler's messages on stderr
     import os, tempfile, shutil
     cdir = tempfile.mkdtemp(prefix="clice", dir=vlib.WORK)
